@@ -5,6 +5,7 @@ package tc
 
 import (
 	"fmt"
+	"reflect"
 	"strings"
 
 	"go.pennock.tech/tabular"
@@ -69,6 +70,8 @@ type Prepared struct {
 	InDom bool // at least one column, and the column count is unambiguous
 	// BadNCols is set (to the reported value) when NColumns() disagrees with the build history.
 	BadNCols int
+	// BadDeco: Populate did not complete the custom decoration properly
+	BadDeco string
 	// Unspecified: a width-declaring item without exactly one text line (possible after a mutation)
 	Unspecified bool
 }
@@ -112,6 +115,18 @@ func Prepare(c Case) Prepared {
 		}
 	}
 	deco, boxless := c.Deco.Make()
+	if c.Deco.Custom != nil {
+		// "a custom one after its defaults are filled in": what the user set stays, everything else gets a glyph
+		v := reflect.ValueOf(deco)
+		for _, f := range gen.DecoFields {
+			got := v.FieldByName(f).String()
+			if want, set := c.Deco.Custom[f]; set && got != want {
+				p.BadDeco = fmt.Sprintf("Populate changed the field %s the caller had set to %q into %q", f, want, got)
+			} else if got == "" {
+				p.BadDeco = fmt.Sprintf("Populate left the field %s empty", f)
+			}
+		}
+	}
 	if early != nil {
 		p.TT = early
 	} else {
@@ -143,6 +158,9 @@ func Prepare(c Case) Prepared {
 // Check renders the case and compares it with the reference renderer.
 func Check(c Case) *ev.Violation {
 	p := Prepare(c)
+	if p.BadDeco != "" {
+		return ev.V("%s", p.BadDeco)
+	}
 	if !p.InDom {
 		if p.Unspecified {
 			return nil
